@@ -89,6 +89,10 @@ func main() {
 		c15child(os.Args[2:])
 		return
 	}
+	if len(os.Args) >= 2 && os.Args[1] == "c01clbatch" {
+		c01clBatch()
+		return
+	}
 	if len(os.Args) >= 2 && os.Args[1] == "c17cell" {
 		c17child(os.Args[2:])
 		return
